@@ -17,7 +17,9 @@ open OV.C06
 /-- **Soundness, bindings exactness, removability — OR-free patterns.**
 If `Pattern.match` (model: `patternMatch`) reports a match `r` for a pattern without `OrValue`
 (whose node patterns refer only to earlier node patterns — always true for builder-made
-patterns — and which never asks a locally matching node for more outputs than it has), then the
+patterns — and, for the revision of `_match_node` as found (`E.fixF1 = false`), never asks a
+locally matching node for more outputs than it has; the repaired revision `E.fixF1 = true` needs
+no such condition), then the
 assignment read off `r` (names ↦ `r.bindings`, pattern nodes ↦ matched nodes, unnamed value
 patterns ↦ values) makes the subgraph ending at `root` an instance of the pattern: operator,
 domain, attribute patterns, input positions with the trailing-`None` convention, repeated
@@ -25,7 +27,7 @@ variables, constants within `close`, output indices; every attached checker and 
 accepted; and with `remove_nodes` no intermediate matched value is a graph output or used outside
 the match.  The full statement (no side conditions) is refuted by `match_sound_full_refuted_*`. -/
 theorem match_sound_partial (E : Env) (root : NodeId) (rm : Bool) (r : Result)
-    (hno : E.p.noOr = true) (htopo : E.p.topo) (har : OutputArityOk E.p E.g)
+    (hno : E.p.noOr = true) (htopo : E.p.topo) (har : E.fixF1 = true ∨ OutputArityOk E.p E.g)
     (h : patternMatch E root rm = some r) :
     Instance E root r.assign ∧ ChecksPass E.p r.assign ∧
       (rm = true → Removable E.g r.nodes r.outputs) :=
@@ -36,7 +38,7 @@ hypotheses: `r.outputs` are the images of the pattern outputs in order (by name 
 object identity otherwise), `r.nodes` is the image of the pattern nodes in binding order, and
 every declared pattern input is bound (to `None` when the match did not bind it). -/
 theorem bindings_exact_partial (E : Env) (root : NodeId) (rm : Bool) (r : Result)
-    (hno : E.p.noOr = true) (htopo : E.p.topo) (har : OutputArityOk E.p E.g)
+    (hno : E.p.noOr = true) (htopo : E.p.topo) (har : E.fixF1 = true ∨ OutputArityOk E.p E.g)
     (h : patternMatch E root rm = some r) :
     E.p.outputs.mapM (r.assign.outputOf E.p) = some r.outputs ∧
       r.nodes = r.nb.map (·.2) ∧
@@ -62,14 +64,14 @@ theorem match_deterministic (E : Env) (root : NodeId) (rm : Bool)
 that are `false` outside the `k` node patterns whose operator identifier is in
 `COMMUTATIVE_OPS`, each once, the all-`false` mask first — and for that mask the pattern itself
 (not a copy) is returned. -/
-theorem commute_exact (p : GPat) (l : List GPat) (h : commute p = .ok l) :
+theorem commute_exact (fix7a : Bool) (p : GPat) (l : List GPat) (h : commute fix7a p = .ok l) :
     l.length = 2 ^ (p.nodes.filter NPat.isCommutative).length ∧
       (masks p.nodes).Nodup ∧
       (∀ m, m ∈ masks p.nodes ↔
         m.length = p.nodes.length ∧ ∀ (i : Nat) (b : Bool), m[i]? = some b → b = true →
           ∃ n : NPat, p.nodes[i]? = some n ∧ n.isCommutative = true) ∧
       l.head? = some p :=
-  commute_counts p l h
+  commute_counts fix7a p l h
 
 /-! ## Refutations of the unrestricted statements (witnesses replayed on the real matcher) -/
 
@@ -157,20 +159,22 @@ theorem match_complete_full_refuted :
   revert this
   decide
 
-/-- finding C06-F1: `a, b = D2(x)` (two outputs) against a `D2` node with one output -/
+/-- finding C06-F1 (fixed in /repo 778bd07; `fixF1 := false` restates the code before the repair):
+`a, b = D2(x)` (two outputs) against a `D2` node with one output -/
 def f1 : Env :=
   { p := { inputs := [some "x"], cond := true, nodes := [mkNode "D2" [some xVar] 2],
            outputs := [.out 0 0] }
     g := { nodes := [mkGNode "D2" [some 0] [1]], outputs := [1], consts := [], foreign := [],
            extUses := [] }
-    close := closeEq }
+    close := closeEq
+    fixF1 := false }
 
-/-- **Soundness fails in general** (finding C06-F1, reproduced on the real matcher): a pattern
+/-- **Soundness failed in general for the matcher before repair 778bd07** (finding C06-F1, reproduced on the real matcher at that revision): a pattern
 node that asks for more outputs than the node has makes `_match_node` return `False` without
 failing the match, and the still-truthy `MatchResult` is reported (with no outputs). -/
 theorem match_sound_full_refuted_extra_outputs :
-    ¬ (∀ (E : Env) (root : NodeId) (rm : Bool) (r : Result), E.p.noOr = true → E.p.topo →
-        patternMatch E root rm = some r → ∃ A, Instance E root A) := by
+    ¬ (∀ (E : Env) (root : NodeId) (rm : Bool) (r : Result), E.fixF1 = false → E.p.noOr = true →
+        E.p.topo → patternMatch E root rm = some r → ∃ A, Instance E root A) := by
   intro h
   have hm : (patternMatch f1 0 false).isSome = true := by decide
   obtain ⟨r, hr⟩ := Option.isSome_iff_exists.1 hm
@@ -182,7 +186,7 @@ theorem match_sound_full_refuted_extra_outputs :
       subst hP
       simp [xVar] at hin
     | n + 1 => simp [f1] at hP
-  obtain ⟨A, hA⟩ := h f1 0 false r (by decide) htopo hr
+  obtain ⟨A, hA⟩ := h f1 0 false r rfl (by decide) htopo hr
   obtain ⟨n, hn, hs⟩ := hA.outNodes 0 (by decide)
   have h0 := hA.rootNode 0 (by decide)
   rw [h0] at hn
@@ -194,6 +198,9 @@ theorem match_sound_full_refuted_extra_outputs :
     subst hP hN
     obtain ⟨x, hx, _⟩ := hout 1 (by decide)
     simp at hx
+
+/-- with the repaired `_match_node` (`fixF1 = true`) the F1 witness is no longer reported -/
+example : (patternMatch { f1 with fixF1 := true } 0 false).isSome = false := by decide
 
 /-! ## Non-vacuity -/
 
@@ -239,6 +246,6 @@ def addPat : GPat :=
     outputs := [.out 0 0] }
 
 /-- `commute` on `Add(x, y)`: two variants (so `commute_exact` is not vacuous). -/
-example : (commute addPat).toOption.map List.length = some 2 := by decide
+example : (commute true addPat).toOption.map List.length = some 2 := by decide
 
 end OV.Props.C06
